@@ -117,7 +117,7 @@ Theorem C13_n3_multichunk_refuted :
 Proof. exact n3_multichunk_refuted. Qed.
 Print Assumptions C13_n3_multichunk_refuted.
 
-(* further N3 / Turtle classes found while building the correspondence (each outside known_C13_n3) *)
+(* further N3 classes found while building the correspondence (each outside known_C13_n3) *)
 Theorem C13_n3_literal_refuted :
   known_C13_n3 wd_doc db_new = false /\ known_C13_n3_literal wd_doc = true /\
   ~ (forall lq, In lq (den (load_n3 (render_doc wd_doc) db_new)) <-> In lq (den db_new) \/ In lq (map lq_of4 (triples_of wd_doc))).
@@ -130,19 +130,23 @@ Theorem C13_n3_hash_refuted :
 Proof. exact n3_hash_refuted. Qed.
 Print Assumptions C13_n3_hash_refuted.
 
-Theorem C13_turtle_tagged_refuted :
-  known_C13_ttl_tagged we_doc = true /\
-  ~ (forall lq, In lq (den (load_ttl (render_doc we_doc) db_new)) <-> In lq (den db_new) \/ In lq (map lq_of4 (triples_of we_doc))).
-Proof. exact ttl_tagged_refuted. Qed.
-Print Assumptions C13_turtle_tagged_refuted.
+(* regression lemma for the repaired finding C13-turtle-tagged-literal (fix dbe5296): the cleaning function
+   before the repair kept a stray quote after the value; the repaired one gives the lexical form and the former witness
+   document now loads as the Spec says *)
+Theorem C13_turtle_tagged_regression :
+  clean_turtle_term_old (render_term (TLit [LPlain 120] (SLang [101;110]))) = [120; 34; 64; 101; 110] /\
+  clean_turtle_term (render_term (TLit [LPlain 120] (SLang [101;110]))) = lex [] (TLit [LPlain 120] (SLang [101;110])) /\
+  lq_mem we_missing (den (load_ttl (render_doc we_doc) db_new)) = true.
+Proof. exact ttl_tagged_regression. Qed.
+Print Assumptions C13_turtle_tagged_regression.
 
 (* Turtle, one statement per line, written `s p o .` with any white space or as a predicate/object list
    `s p o , o ; p o .` with single blanks (IRIs that are http(s):// or colon-free, prefixed names, blank nodes with
-   alphanumeric labels, plain literals whose value has no ':' and does not start with '<' or a quote; @prefix lines,
-   comments, blank lines), into EVERY prior database satisfying the invariant whose prefix table is sane
+   alphanumeric labels, literals - plain, language-tagged or typed, every escape form - whose value has no ':' and
+   does not start with '<' or a quote; no '{' in IRIs; @prefix lines, comments, blank lines), into EVERY prior database satisfying the invariant whose prefix table is sane
    (alphanumeric names, IRIs not starting with '<').  Prefixes declared by earlier loads stay in scope in
    parse_turtle, so the document's quads are read under `d_pref x` (= triples_of doc when that table is empty).
-   Tagged literals are finding C13-turtle-tagged-literal; quoted triples: modelled + correspondence only. *)
+   Quoted triples and the `{| |}` annotation syntax: modelled + correspondence only. *)
 Theorem C13_turtle :
   forall (doc : list item) (x : db),
     wf_doc_ttl doc = true -> db_ok x -> pref_ok (d_pref x) ->
@@ -152,21 +156,24 @@ Theorem C13_turtle :
 Proof. exact ttl_main. Qed.
 Print Assumptions C13_turtle.
 
-(* (5) The same triples in different formats.  PARTIAL: proved for N-Triples, N-Quads (default graph),
-   one-statement-per-line Turtle and N3; RDF/XML is not modelled (correspondence stream only).  Full statement:
+(* (5) The same triples in different formats.  PARTIAL: proved for N-Triples, N-Quads (default graph) and
+   one-statement-per-line Turtle including plain, language-tagged and typed literals, and for N3 on documents of
+   its subset (IRIs only: N3 literals are finding C13-n3-literal-quoted); RDF/XML is not modelled
+   (correspondence stream only).  Full statement:
      forall triples x, den (load_nt (as_nt triples) x) = den (load_nq (as_nq triples) x)
                      = den (load_ttl (as_ttl triples) x) = den (load_n3 (as_n3 triples) x) = den (load_rdfxml ...)
-   A document whose statements are written with http(s) IRIs and single blanks is at the same time an
-   N-Triples, an N-Quads, a Turtle and an N3 document (same text). *)
+   A document whose statements are written with http(s) IRIs, blank nodes, literals and single blanks is at the
+   same time an N-Triples, an N-Quads and a Turtle document (same text). *)
 Theorem C13_formats_agree_partial :
   forall (doc : list item) (x : db),
-    wf_doc_nt doc = true -> wf_doc_n3 doc = true -> wf_doc_ttl doc = true ->
-    known_C13_reclean doc = false -> known_C13_n3 doc x = false -> db_ok x -> pref_ok (d_pref x) ->
+    wf_doc_nt doc = true -> wf_doc_ttl doc = true ->
+    known_C13_reclean doc = false -> db_ok x -> pref_ok (d_pref x) ->
     next_id (d_dict x) + 4 * N.of_nat (length doc) <= QBIT ->
     forall lq,
       (In lq (den (load_nt (render_doc doc) x)) <-> In lq (den (load_nq (render_doc doc) x))) /\
       (In lq (den (load_nt (render_doc doc) x)) <-> In lq (den (load_ttl (render_doc doc) x))) /\
-      (In lq (den (load_nt (render_doc doc) x)) <-> In lq (den (load_n3 (render_doc doc) x))).
+      (wf_doc_n3 doc = true -> known_C13_n3 doc x = false ->
+       (In lq (den (load_nt (render_doc doc) x)) <-> In lq (den (load_n3 (render_doc doc) x)))).
 Proof. exact formats_agree4. Qed.
 Print Assumptions C13_formats_agree_partial.
 
@@ -195,6 +202,14 @@ Example C13_example_n3 :
   wf_doc_n3 ex_n3 = true /\ known_C13_n3 ex_n3 db_new = false /\ length (den (load_n3 (render_doc ex_n3) db_new)) = 2%nat /\
   wf_doc_nt ex_both = true /\ wf_doc_n3 ex_both = true /\ wf_doc_ttl ex_both = true /\
   known_C13_reclean ex_both = false /\ known_C13_n3 ex_both db_new = false.
+Proof. repeat split; vm_compute; reflexivity. Qed.
+
+Definition ex_tagged : list item :=
+  [IStmt P0 (TIri iA) (TIri iB) (TLit [LPlain 120; LEsc 110] (SLang [101;110])) None;
+   IStmt P0 (TBnode [98]) (TIri iB) (TLit [LPlain 53] (SDt iC)) None].
+Example C13_example_tagged :
+  wf_doc_nt ex_tagged = true /\ wf_doc_ttl ex_tagged = true /\ known_C13_reclean ex_tagged = false /\
+  length (den (load_ttl (render_doc ex_tagged) db_new)) = 2%nat.
 Proof. repeat split; vm_compute; reflexivity. Qed.
 
 Definition ex_ttl : list item :=
